@@ -32,6 +32,7 @@ FRESH_METHODS = {'to_angle', 'thaw', 'freeze', 'transpose', 'inverse', 'norm', '
 MUT_RECV = {'_mat_mul', '__iadd__', '__isub__', '__imul__', '__itruediv__', '__ifloordiv__', '__imod__', '__imatmul__',
             'min', 'max', 'localise', 'rotate', 'rotate_by_str', '__setitem__'}
 MUT_ARG0 = {'_vec_rot', '_to_angle'}
+FRESH_USED: set[str] = set()        # names of FRESH_CLASSMETHODS / FRESH_METHODS that the census or the result kinds relied on
 
 
 _CONSTS: dict[str, ast.AST] = {}        # module-level literal constants of the file being read (set by angle_sites)
@@ -943,9 +944,12 @@ def _origin_of_expr(e: ast.AST, origin_of_name) -> str:
             if f.attr == 'copy' and not e.args:
                 o = _origin_of_expr(f.value, origin_of_name)
                 return {'Self': 'CopyOfSelf', 'Param': 'CopyOfParam', 'Fresh': 'Fresh'}.get(o, 'Unknown')
-            if f.attr in FRESH_CLASSMETHODS:       # alternative constructors: always build a new object
-                return 'Fresh'
-            if f.attr in FRESH_METHODS:
+            if f.attr in FRESH_CLASSMETHODS or f.attr in FRESH_METHODS:
+                # by name: alternative constructors and methods that always build a new object.  Every name used here
+                # is recorded; the result-kind table must say RFresh for it in every class (obligation
+                # census_fresh_by_name_justified), so `x = self.transpose(); x._ab = ...` is only trusted while
+                # transpose() really returns a new object for frozen receivers too.
+                FRESH_USED.add(f.attr)
                 return 'Fresh'
     return 'Unknown'
 
@@ -1171,7 +1175,425 @@ def result_kinds(tree: ast.Module) -> tuple[list[tuple[str, str, str]], dict]:
             public = not name.startswith('_') or (name.startswith('__') and name.endswith('__'))
             if public:
                 out.append((cls, name, k))
+        info.setdefault('all_method_kinds', {})[cls] = dict(table)
     return out, info
+
+
+def fresh_by_name(all_kinds: dict[str, dict[str, str]]) -> list[tuple[str, str]]:
+    """(Class.method, kind) for every method name that _origin_of_expr trusted by name to return a new object, in every
+    concrete class that has it (private helpers included)."""
+    out = []
+    for name in sorted(FRESH_USED):
+        hit = [(f'{cls}.{name}', t[name]) for cls, t in all_kinds.items() if name in t]
+        out += hit if hit else [(f'?.{name}', 'RUnknown')]
+    return out
+
+
+# ---------------------------------------------------------------------------------------------- copy shapes
+class _Unk(Exception):
+    """the symbolic run met something it does not understand"""
+
+
+class _F:            # a float that is the value of slot `slot` of the SOURCE object, converted: 0 as is, 1 float(), 2 % 360 % 360, 'half' % 360
+    def __init__(self, slot, x): self.slot, self.x = slot, x
+class _K:            # a constant that does not come from the source
+    def __init__(self, v): self.v = v
+class _O:            # an object of one of the classes: the source (is_self) or one created during the run
+    def __init__(self, cls, is_self=False): self.cls, self.slots, self.is_self = cls, {}, is_self
+class _C:            # a class
+    def __init__(self, name): self.name = name
+class _T:            # a tuple
+    def __init__(self, items): self.items = list(items)
+class _Fn:           # a function, possibly bound
+    def __init__(self, fn, bound=None): self.fn, self.bound = fn, bound
+class _New:          # X.__new__
+    pass
+
+
+FAMILY_SLOTS = {'VecBase': ('_x', '_y', '_z'), 'AngleBase': FIELDS,
+                'MatrixBase': ('_aa', '_ab', '_ac', '_ba', '_bb', '_bc', '_ca', '_cb', '_cc')}
+
+
+class _Sym:
+    """Symbolic execution of the copy-like methods on a source object whose slots hold floats: straight-line code,
+    if/else on isinstance / is None / type(x) is C tests, calls of constructors, X.__new__, module functions, methods,
+    property getters/setters and the matrix cell setter.  Everything else raises _Unk (shape CUnknown)."""
+
+    def __init__(self, tree: ast.Module):
+        self.tree = tree
+        fns = _class_functions(tree)
+        self.meth: dict[str, dict[str, ast.FunctionDef]] = {}
+        self.getter: dict[str, dict[str, ast.FunctionDef]] = {}
+        self.setter: dict[str, dict[str, ast.FunctionDef]] = {}
+        for c, fl in fns.items():
+            self.meth[c], self.getter[c], self.setter[c] = {}, {}, {}
+            for f in fl:
+                if _is_stub(f):
+                    continue
+                decs = [d.id if isinstance(d, ast.Name) else d.attr if isinstance(d, ast.Attribute) else '' for d in f.decorator_list]
+                if 'property' in decs:
+                    self.getter[c][f.name] = f
+                elif 'setter' in decs:
+                    self.setter[c][f.name] = f
+                else:
+                    self.meth[c][f.name] = f
+        self.alias: dict[str, dict[str, str]] = {}
+        for c in tree.body:
+            if isinstance(c, ast.ClassDef) and c.name in CLASSES:
+                for n in c.body:
+                    if isinstance(n, ast.Assign) and len(n.targets) == 1 and isinstance(n.targets[0], ast.Name) and isinstance(n.value, ast.Name):
+                        self.alias.setdefault(c.name, {})[n.targets[0].id] = n.value.id
+        self.modfn = {f.name: f for f in tree.body if isinstance(f, ast.FunctionDef)}
+        self.clsname = {c: c for c in CLASSES}
+        for n in tree.body:          # Py_Vec = Vec, Cy_Vec = Vec ...
+            if isinstance(n, ast.Assign) and len(n.targets) == 1 and isinstance(n.targets[0], ast.Name) and isinstance(n.value, ast.Name) \
+                    and n.value.id in CLASSES:
+                self.clsname[n.targets[0].id] = n.value.id
+        self.dicts = {n.target.id if isinstance(n, ast.AnnAssign) else n.targets[0].id: n.value for n in tree.body
+                      if isinstance(n, (ast.Assign, ast.AnnAssign)) and isinstance(getattr(n, 'value', None), ast.Dict)
+                      and isinstance(n.target if isinstance(n, ast.AnnAssign) else n.targets[0], ast.Name)}
+        self.steps = 0
+
+    # ---- lookup through the class and its base
+    def mro(self, cls: str) -> list[str]:
+        return [cls] + ([CONCRETE[cls]] if cls in CONCRETE else [])
+
+    def find(self, table: dict, cls: str, name: str):
+        for c in self.mro(cls):
+            t = table.get(c, {})
+            if name in t:
+                return t[name]
+            a = self.alias.get(c, {}).get(name) if table is self.meth else None
+            if a is not None and a in t:
+                return t[a]
+        return None
+
+    def slots(self, cls: str) -> tuple[str, ...]:
+        return FAMILY_SLOTS[CONCRETE.get(cls, cls)]
+
+    def subclass(self, c: str, of: str) -> bool:
+        return of in self.mro(c)
+
+    # ---- calls
+    def call_fn(self, f: ast.FunctionDef, args: list, depth: int):
+        if depth > 8:
+            raise _Unk('call depth')
+        a = f.args
+        names = [x.arg for x in a.posonlyargs + a.args]
+        env: dict[str, object] = {}
+        if len(args) > len(names) and not a.vararg:
+            raise _Unk(f'{f.name}: too many arguments')
+        for n, v in zip(names, args):
+            env[n] = v
+        if a.vararg:
+            env[a.vararg.arg] = _T(args[len(names):])
+        if a.kwarg:
+            env[a.kwarg.arg] = _K({})
+        defaults = dict(zip(names[len(names) - len(a.defaults):], a.defaults))
+        for n in names[len(args):]:
+            if n not in defaults:
+                raise _Unk(f'{f.name}: missing argument {n}')
+            env[n] = self.ev(defaults[n], {}, depth)
+        for ko, kd in zip(a.kwonlyargs, a.kw_defaults):
+            if kd is None:
+                raise _Unk(f'{f.name}: keyword-only argument')
+            env[ko.arg] = self.ev(kd, {}, depth)
+        r = self.block(f.body, env, depth)
+        return r[1] if r is not None else _K(None)
+
+    def construct(self, cls: str, args: list, depth: int):
+        new = self.find(self.meth, cls, '__new__')
+        if new is not None:
+            obj = self.call_fn(new, [_C(cls)] + args, depth + 1)
+            if not (isinstance(obj, _O) and self.subclass(obj.cls, cls)):
+                return obj
+        else:
+            obj = _O(cls)
+        init = self.find(self.meth, cls, '__init__')
+        if init is not None and not obj.is_self:
+            self.call_fn(init, [obj] + args, depth + 1)
+        elif init is not None:
+            raise _Unk('__init__ would run on the source object')
+        return obj
+
+    def call_value(self, fv, args: list, depth: int):
+        if isinstance(fv, _C):
+            if fv.name not in CONCRETE:
+                raise _Unk(f'instantiating {fv.name}')
+            return self.construct(fv.name, args, depth)
+        if isinstance(fv, _Fn):
+            return self.call_fn(fv.fn, ([fv.bound] if fv.bound is not None else []) + args, depth + 1)
+        raise _Unk('call of something that is not a class or a known function')
+
+    # ---- statements
+    def block(self, stmts: list[ast.stmt], env: dict, depth: int):
+        for st in stmts:
+            self.steps += 1
+            if self.steps > 20000:
+                raise _Unk('too many steps')
+            if isinstance(st, ast.Expr):
+                if isinstance(st.value, ast.Constant):
+                    continue
+                self.ev(st.value, env, depth)
+                continue
+            if isinstance(st, ast.Pass):
+                continue
+            if isinstance(st, ast.Return):
+                return ('ret', self.ev(st.value, env, depth) if st.value is not None else _K(None))
+            if isinstance(st, ast.If):
+                t = self.truth(self.ev(st.test, env, depth))
+                r = self.block(st.body if t else st.orelse, env, depth)
+                if r is not None:
+                    return r
+                continue
+            if isinstance(st, ast.AnnAssign) and st.value is None:
+                continue
+            if isinstance(st, (ast.Assign, ast.AnnAssign)):
+                targets = st.targets if isinstance(st, ast.Assign) else [st.target]
+                v = self.ev(st.value, env, depth)
+                for t in targets:
+                    self.assign(t, v, env, depth)
+                continue
+            raise _Unk(f'statement {type(st).__name__} (line {st.lineno})')
+        return None
+
+    def assign(self, t: ast.AST, v, env: dict, depth: int) -> None:
+        if isinstance(t, ast.Name):
+            env[t.id] = v
+        elif isinstance(t, (ast.Tuple, ast.List)):
+            if not isinstance(v, _T) or len(v.items) != len(t.elts) or any(isinstance(e, ast.Starred) for e in t.elts):
+                raise _Unk('unpacking')
+            for e, x in zip(t.elts, v.items):
+                self.assign(e, x, env, depth)
+        elif isinstance(t, ast.Attribute):
+            self.setattr(self.ev(t.value, env, depth), t.attr, v, depth)
+        elif isinstance(t, ast.Subscript):
+            o = self.ev(t.value, env, depth)
+            if not isinstance(o, _O):
+                raise _Unk('item store on a non-object')
+            m = self.find(self.meth, o.cls, '__setitem__')
+            if m is None:
+                raise _Unk(f'{o.cls} has no __setitem__')
+            self.call_fn(m, [o, self.ev(t.slice, env, depth), v], depth + 1)
+        else:
+            raise _Unk('assignment target')
+
+    def setattr(self, o, attr: str, v, depth: int) -> None:
+        if not isinstance(o, _O):
+            raise _Unk('attribute store on a non-object')
+        if o.is_self:
+            raise _Unk('store to the source object')
+        if attr in self.slots(o.cls):
+            o.slots[attr] = v
+            return
+        s = self.find(self.setter, o.cls, attr)
+        if s is None:
+            raise _Unk(f'{o.cls}.{attr} is not a slot and has no setter')
+        self.call_fn(s, [o, v], depth + 1)
+
+    # ---- expressions
+    def truth(self, v) -> bool:
+        if isinstance(v, _K) and isinstance(v.v, bool):
+            return v.v
+        if isinstance(v, _K) and v.v is None:
+            return False
+        raise _Unk('truth value of a symbolic value')
+
+    def isinst(self, v, spec) -> bool:
+        specs = spec.items if isinstance(spec, _T) else [spec]
+        res = False
+        for c in specs:
+            if not isinstance(c, _C):
+                raise _Unk('isinstance against a non-class')
+            if c.name in ('float', 'int'):
+                res = res or isinstance(v, _F) or (isinstance(v, _K) and type(v.v) in (float, int) and (c.name == 'float') == isinstance(v.v, float))
+            elif c.name in ('str', 'bytes', 'tuple', 'list', 'dict'):
+                res = res or (isinstance(v, _K) and type(v.v).__name__ == c.name) or (c.name == 'tuple' and isinstance(v, _T))
+            elif c.name in CLASSES:
+                res = res or (isinstance(v, _O) and self.subclass(v.cls, c.name))
+            else:
+                raise _Unk(f'isinstance against {c.name}')
+        return res
+
+    def ev(self, e: ast.AST, env: dict, depth: int):
+        if isinstance(e, ast.Constant):
+            return _K(e.value)
+        if isinstance(e, ast.Name):
+            if e.id in env:
+                return env[e.id]
+            if e.id in self.clsname:
+                return _C(self.clsname[e.id])
+            if e.id in ('object', 'float', 'int', 'str', 'bytes', 'tuple', 'list', 'dict'):
+                return _C(e.id)
+            if e.id in self.modfn:
+                return _Fn(self.modfn[e.id])
+            if e.id in _CONSTS:
+                return self.ev(_CONSTS[e.id], {}, depth)
+            raise _Unk(f'name {e.id}')
+        if isinstance(e, ast.Tuple):
+            return _T(self.ev(x, env, depth) for x in e.elts)
+        if isinstance(e, ast.Attribute):
+            if e.attr == '__new__':
+                return _New()
+            o = self.ev(e.value, env, depth)
+            if isinstance(o, _O):
+                if e.attr in self.slots(o.cls):
+                    if o.is_self:
+                        return _F(e.attr, 0)
+                    if e.attr not in o.slots:
+                        raise _Unk(f'slot {e.attr} read before it is stored')
+                    return o.slots[e.attr]
+                g = self.find(self.getter, o.cls, e.attr)
+                if g is not None:
+                    return self.call_fn(g, [o], depth + 1)
+                cls = o.cls
+            elif isinstance(o, _C) and o.name in CLASSES:
+                cls = o.name
+            else:
+                raise _Unk(f'attribute {e.attr} of a non-object')
+            m = self.find(self.meth, cls, e.attr)
+            if m is None:
+                raise _Unk(f'{cls}.{e.attr} not found')
+            return _Fn(m, _C(cls) if any(isinstance(d, ast.Name) and d.id == 'classmethod' for d in m.decorator_list)
+                       else None if any(isinstance(d, ast.Name) and d.id == 'staticmethod' for d in m.decorator_list)
+                       else o if isinstance(o, _O) else None)
+        if isinstance(e, ast.Subscript):
+            if isinstance(e.value, ast.Name) and e.value.id not in env and e.value.id in self.dicts:
+                k = self.plain(self.ev(e.slice, env, depth))
+                for kk, vv in zip(self.dicts[e.value.id].keys, self.dicts[e.value.id].values):
+                    try:
+                        if kk is not None and ast.literal_eval(kk) == k:
+                            return self.ev(vv, {}, depth)
+                    except ValueError:
+                        pass
+                raise _Unk(f'key not found in {e.value.id}')
+            raise _Unk('subscript')
+        if isinstance(e, ast.BinOp) and isinstance(e.op, ast.Mod) and _is360(e.right):
+            l = self.ev(e.left, env, depth)
+            if isinstance(l, _F):
+                return _F(l.slot, 2 if l.x in ('half', 2) else 'half')
+            raise _Unk('% 360 of a value that is not a source slot')
+        if isinstance(e, ast.UnaryOp) and isinstance(e.op, ast.Not):
+            return _K(not self.truth(self.ev(e.operand, env, depth)))
+        if isinstance(e, ast.BoolOp):
+            vals = [self.truth(self.ev(x, env, depth)) for x in e.values]      # no side effects in tests: evaluating all is fine
+            return _K(all(vals) if isinstance(e.op, ast.And) else any(vals))
+        if isinstance(e, ast.Compare) and len(e.ops) == 1:
+            l, r = self.ev(e.left, env, depth), self.ev(e.comparators[0], env, depth)
+            op = e.ops[0]
+            if isinstance(op, (ast.Is, ast.IsNot)):
+                if isinstance(l, _C) and isinstance(r, _C):
+                    same = l.name == r.name
+                elif isinstance(r, _K) and r.v is None:
+                    same = isinstance(l, _K) and l.v is None
+                elif isinstance(l, _O) and isinstance(r, _O):
+                    same = l is r
+                else:
+                    raise _Unk('identity test')
+                return _K(same if isinstance(op, ast.Is) else not same)
+            if isinstance(op, (ast.Eq, ast.NotEq)) and isinstance(l, (_K, _T)) and isinstance(r, (_K, _T)):
+                same = self.plain(l) == self.plain(r)
+                return _K(same if isinstance(op, ast.Eq) else not same)
+            raise _Unk('comparison')
+        if isinstance(e, ast.Call):
+            if any(isinstance(a, ast.Starred) for a in e.args) or e.keywords:
+                raise _Unk('starred / keyword arguments')
+            f = e.func
+            if isinstance(f, ast.Name) and f.id not in env:
+                if f.id in ('float', '_coerce_float') and len(e.args) == 1 and (f.id == 'float' or '_coerce_float' not in self.modfn):
+                    v = self.ev(e.args[0], env, depth)
+                    if isinstance(v, _F):
+                        return _F(v.slot, v.x if v.x in (1, 2, 'half') else 1)
+                    if isinstance(v, _K) and type(v.v) in (int, float):
+                        return _K(float(v.v))
+                    raise _Unk('float() of a non-number')
+                if f.id == 'isinstance' and len(e.args) == 2:
+                    return _K(self.isinst(self.ev(e.args[0], env, depth), self.ev(e.args[1], env, depth)))
+                if f.id == 'type' and len(e.args) == 1:
+                    v = self.ev(e.args[0], env, depth)
+                    if isinstance(v, _O):
+                        return _C(v.cls)
+                    raise _Unk('type() of a non-object')
+                if f.id == 'setattr' and len(e.args) == 3:
+                    k = self.ev(e.args[1], env, depth)
+                    if not (isinstance(k, _K) and isinstance(k.v, str)):
+                        raise _Unk('setattr with a symbolic name')
+                    self.setattr(self.ev(e.args[0], env, depth), k.v, self.ev(e.args[2], env, depth), depth)
+                    return _K(None)
+            if isinstance(f, ast.Call) and isinstance(f.func, ast.Name) and f.func.id == 'super' and not f.args:
+                raise _Unk('super() outside __new__')
+            if isinstance(f, ast.Attribute) and f.attr == '__new__':
+                if len(e.args) != 1:
+                    raise _Unk('__new__ with extra arguments')
+                c = self.ev(e.args[0], env, depth)
+                if not (isinstance(c, _C) and c.name in CONCRETE):
+                    raise _Unk('__new__ of a class that is not concrete')
+                return _O(c.name)
+            fv = self.ev(f, env, depth)
+            return self.call_value(fv, [self.ev(a, env, depth) for a in e.args], depth)
+        raise _Unk(f'expression {type(e).__name__}')
+
+    def plain(self, v):
+        if isinstance(v, _K):
+            return v.v
+        if isinstance(v, _T):
+            return tuple(self.plain(x) for x in v.items)
+        raise _Unk('symbolic value where a constant is needed')
+
+    # ---- one copy-like method
+    def shape(self, cls: str, meth: str):
+        """('CSelf', result class) | ('CSlots', result class, [(dst, src, conversion)]) | ('CUnknown', '', reason)"""
+        self.steps = 0
+        m = self.find(self.meth, cls, meth)
+        if m is None and meth in ('__copy__', '__deepcopy__'):
+            m, meth = self.find(self.meth, cls, '__reduce__'), '__reduce__'       # what the copy module falls back to
+        if m is None:
+            return None
+        src = _O(cls, is_self=True)
+        try:
+            r = self.call_fn(m, [src], 0)
+            if meth == '__reduce__':
+                if not (isinstance(r, _T) and len(r.items) == 2 and isinstance(r.items[1], _T)):
+                    raise _Unk('__reduce__ does not return (maker, (arguments...))')
+                r = self.call_value(r.items[0], r.items[1].items, 0)
+            if not isinstance(r, _O):
+                raise _Unk('the result is not an object of the six classes')
+            if r.is_self:
+                return ('CSelf', r.cls, [])
+            t = []
+            for s_ in self.slots(r.cls):
+                v = r.slots.get(s_)
+                if not isinstance(v, _F) or v.x == 'half':
+                    raise _Unk(f'slot {s_} of the result ' + ('is not stored' if v is None else 'does not hold a (fully converted) source slot'))
+                t.append((s_, v.slot, {0: 'TId', 1: 'TFloat', 2: 'TNorm360'}[v.x]))
+            return ('CSlots', r.cls, t)
+        except _Unk as ex:
+            return ('CUnknown', '', str(ex))
+        except RecursionError:
+            return ('CUnknown', '', 'recursion')
+
+
+def copy_shapes(tree: ast.Module) -> tuple[list[tuple[str, str, str, str]], dict]:
+    """(class, copy-like method, class of the result, Coq term of the shape) for the six concrete classes."""
+    sym = _Sym(tree)
+    out = []
+    why = {}
+    for cls in CONCRETE:
+        for m in COPYLIKE:
+            r = sym.shape(cls, m)
+            if r is None:
+                continue
+            kind, rc, t = r
+            if kind == 'CSlots':
+                term = 'CSlots [' + '; '.join(f'({_s(d)}, {_s(sl)}, {x})' for d, sl, x in t) + ']'
+            elif kind == 'CSelf':
+                term = 'CSelf'
+            else:
+                term, why[f'{cls}.{m}'] = 'CUnknown', t
+            out.append((cls, m, rc, term))
+    if not out:
+        raise TranslateError('no copy-like method found')
+    return out, {'copy_shapes_not_understood': why}
 
 
 # ---------------------------------------------------------------------------------------------- emit
@@ -1188,10 +1610,14 @@ def translate() -> tuple[str, dict]:
     cfg = format_cfg(tree)
     pcfg = parse_cfg(tree)
     strs = str_templates(tree)
+    FRESH_USED.clear()
     muts = mutation_census(tree)
     meths = method_table(tree)
     results, rinfo = result_kinds(tree)
+    fresh = fresh_by_name(rinfo.pop('all_method_kinds'))
     info.update(rinfo)
+    shapes, sinfo = copy_shapes(tree)
+    info.update(sinfo)
     # __str__: three numbers separated by single spaces
     def plain3(p, sep):
         kinds = [k for k, _ in p]
@@ -1202,7 +1628,7 @@ def translate() -> tuple[str, dict]:
     lines = [
         '(* GENERATED by translate/c05_sites.py from src/srctools/math.py. Do not edit. *)',
         'From Coq Require Import ZArith NArith List String.',
-        'From SV Require Import Num.Dec6 Num.AngleSites Num.VecText SM.FrozenOps SM.FrozenCopy.',
+        'From SV Require Import Num.Dec6 Num.AngleSites Num.VecText SM.FrozenOps SM.FrozenCopy SM.FrozenCopyValue.',
         'Import ListNotations.', 'Open Scope string_scope.',
         '(* every store to an _pitch/_yaw/_roll slot: (file:Class.function:slot, classification of the stored value) *)',
         'Definition angle_sites : list (string * rhs) := [',
@@ -1234,9 +1660,17 @@ def translate() -> tuple[str, dict]:
         'Definition result_kinds : list (string * string * rkind) := [',
         ';\n'.join(f'  ({_s(c)}, {_s(m)}, {k})' for c, m, k in results),
         '].',
+        '(* what copy / __copy__ / __deepcopy__ / __reduce__ / freeze / thaw build: (class, method, class of the result, slot transfer) *)',
+        'Definition copy_shapes : list copy_entry := [',
+        ';\n'.join(f'  ({_s(c)}, {_s(m)}, {_s(rc)}, {t})' for c, m, rc, t in shapes),
+        '].',
+        '(* methods whose result the census treats as a new object because of their NAME, with the kind read from their returns *)',
+        'Definition fresh_by_name : list (string * rkind) := [',
+        ';\n'.join(f'  ({_s(w)}, {k})' for w, k in fresh),
+        '].',
         '',
     ]
-    side = {'angle_sites': [list(s) for s in sites], 'angle_creations': [list(c) for c in creations], 'format_float': cfg, 'parse_vec_str': pcfg, 'str_templates': strs,
+    side = {'fresh_by_name': [list(x) for x in fresh], 'copy_shapes': [list(x) for x in shapes], 'angle_sites': [list(s) for s in sites], 'angle_creations': [list(c) for c in creations], 'format_float': cfg, 'parse_vec_str': pcfg, 'str_templates': strs,
             'mut_events': [list(m) for m in muts], 'result_kinds': [list(r) for r in results], 'n_methods': len(meths), **info,
             'digests': {'parse_vec_str': _digest(tree, 'parse_vec_str'), 'format_float': cfg['digest']}}
     return '\n'.join(lines), side
